@@ -848,12 +848,12 @@ pub fn run(ctx: &mut Ctx) {
     check_constants(ctx);
     known_range_below_min(ctx);
     let plan: [(&str, u64, u64); 6] = [
-        ("bitpack", 500, 2_800),
-        ("codec", 230, 1_350),
-        ("optidx", 60, 350),
-        ("columnar", 260, 1_650),
-        ("merge", 220, 1_450),
-        ("tantivy", 14, 80),
+        ("bitpack", 500, 2_200),
+        ("codec", 230, 1_100),
+        ("optidx", 60, 300),
+        ("columnar", 260, 1_250),
+        ("merge", 220, 1_100),
+        ("tantivy", 14, 64),
     ];
     for (kind, q, t) in plan {
         let n = ctx.budget(q, t);
